@@ -72,9 +72,9 @@ TFault ==
         \* the effect of a failing delete may or may not have happened; the caller ignores it
         \/ CLAbort(E.c)
         \/ /\ E.fault = "after"
-           /\ \/ (\E e \in cl[E.c].dels : CLD(E.c, e)) \cdot CLAbort(E.c)
-              \/ (\E s \in cl[E.c].sdel : CLXS(E.c, s)) \cdot CLAbort(E.c)
-              \/ CLXO(E.c) \cdot CLAbort(E.c)
+           /\ \/ (\E e \in cl[E.c].dels : CLDThenAbort(E.c, e) /\ E.name = <<"v", e[1], e[2]>>)
+              \/ (\E x \in cl[E.c].sdel : CLXSThenAbort(E.c, x) /\ E.name = <<"s", x, 0>>)
+              \/ (CLXOThenAbort(E.c) /\ E.name[1] = "v")
      ELSE IF E.fault = "before" \/ E.op \in {"get", "list"} THEN FailBefore(E.c)
      ELSE (E.op = "put" /\ E.name[1] = "v" /\ FailAfterPut(E.c, E.name[3]))
           \/ FailAfterCas(E.c) \/ FailAfterDel(E.c) \/ FailAfterSnap(E.c)
